@@ -4,6 +4,7 @@ sweep of `famOf S`; the sorted ghost events form a `Cut` at 0.
 -/
 import DnsVerif.Proofs.LpmRdb
 import DnsVerif.Proofs.LpmConc
+import DnsVerif.Proofs.LpmFamWF
 
 namespace DnsVerif.Lpm
 open DnsVerif DnsVerif.Rearr DnsVerif.Spec
@@ -60,53 +61,174 @@ theorem rank_ne_of_ne {F : List Rng} (hF : RngWF F) {R R' : Rng} (hR : R ∈ F) 
     · omega
     · omega
 
-theorem events_rank_inj {F : List Rng} (hF : RngWF F) :
-    (F.flatMap gevents).Pairwise fun g g' => grank g ≠ grank g' := by
-  rw [List.pairwise_flatMap]
-  constructor
-  · intro R hR
-    have hlt := srank_lt_erank hF hR
-    unfold gevents
-    by_cases hTop : R.hi = TOP
-    · rw [if_pos hTop]; simp
-    · rw [if_neg hTop]
-      simp only [List.pairwise_cons, List.mem_singleton, forall_eq, List.not_mem_nil, false_imp_iff,
-        implies_true, List.Pairwise.nil, and_true]
-      rw [grank_start, grank_stop]; omega
-  · have hpw : F.Pairwise (· ≠ ·) := hF.nodup
-    refine List.Pairwise.imp_of_mem ?_ hpw
-    intro R R' hR hR' hne g hg g' hg'
-    exact rank_ne_of_ne hF hR hR' hne hg hg'
-
-/-- the sorted ghost events of a well-formed family form a cut at 0 -/
-theorem cut_sortBy {F : List Rng} (hF : RngWF F) :
-    Cut F 0 (sortBy GEv.pt (F.flatMap gevents)) := by
-  have hperm := sortBy_perm GEv.pt (F.flatMap gevents)
-  have hmemE : ∀ g, g ∈ sortBy GEv.pt (F.flatMap gevents) ↔ ∃ R ∈ F, g ∈ gevents R := by
+/-- the sorted ghost events of a list of ranges `L` that consists of a well-formed family `F` and of
+pseudo ranges whose only event is a marker form a cut at 0 -/
+theorem cut_sortBy {F L : List Rng} {M : List GEv} (hF : RngWF F) (hsub : ∀ R ∈ F, R ∈ L)
+    (hrest : ∀ R ∈ L, R ∉ F → gevents R = [⟨R, .start⟩] ∧ (⟨R, .start⟩ : GEv) ∈ M ∧ R.len ≤ 255)
+    (hinj : (L.flatMap gevents).Pairwise fun g g' => grank g ≠ grank g') :
+    Cut F M 0 (sortBy GEv.pt (L.flatMap gevents)) := by
+  have hperm := sortBy_perm GEv.pt (L.flatMap gevents)
+  have hmemE : ∀ g, g ∈ sortBy GEv.pt (L.flatMap gevents) ↔ ∃ R ∈ L, g ∈ gevents R := by
     intro g
     rw [hperm.mem_iff, List.mem_flatMap]
-  have hml : ∀ g ∈ F.flatMap gevents, g.pt.maskLen ≤ 255 := by
+  have hml : ∀ g ∈ L.flatMap gevents, g.pt.maskLen ≤ 255 := by
     intro g hg
     obtain ⟨R, hR, hgR⟩ := List.mem_flatMap.1 hg
     obtain ⟨e, _⟩ := gevents_mem hgR
-    have := (hF.bounds R hR).2.2
+    have : R.len ≤ 255 := by
+      by_cases hRF : R ∈ F
+      · have := (hF.bounds R hRF).2.2; omega
+      · exact (hrest R hR hRF).2.2
     obtain ⟨r, k⟩ := g
     simp only at e; subst e
     cases k <;> simp only [GEv.pt] <;> omega
   refine ⟨?_, ?_, ?_, ?_⟩
-  · exact sortBy_strict GEv.pt _ hml (events_rank_inj hF)
+  · exact sortBy_strict GEv.pt _ hml hinj
   · intro g hg
     obtain ⟨R, hR, hgR⟩ := (hmemE g).1 hg
-    obtain ⟨e, hs⟩ := gevents_mem hgR
-    refine ⟨?_, e ▸ hR, fun hk => e ▸ hs hk⟩
-    obtain ⟨b1, b2, b3⟩ := hF.bounds R hR
-    obtain ⟨r, k⟩ := g
-    simp only at e; subst e
-    cases k <;> simp only [grank, rank, GEv.pt] <;> omega
+    by_cases hRF : R ∈ F
+    · obtain ⟨e, hs⟩ := gevents_mem hgR
+      refine ⟨?_, Or.inl ⟨e ▸ hRF, fun hk => e ▸ hs hk⟩⟩
+      obtain ⟨b1, b2, b3⟩ := hF.bounds R hRF
+      obtain ⟨r, k⟩ := g
+      simp only at e; subst e
+      cases k <;> simp only [grank, rank, GEv.pt] <;> omega
+    · obtain ⟨h1, h2, _⟩ := hrest R hR hRF
+      rw [h1, List.mem_singleton] at hgR
+      subst hgR
+      refine ⟨?_, Or.inr h2⟩
+      rw [grank_start]; unfold srank; omega
   · intro R hR _
-    exact (hmemE _).2 ⟨R, hR, start_mem_gevents R⟩
+    exact (hmemE _).2 ⟨R, hsub R hR, start_mem_gevents R⟩
   · intro R hR hTop _
-    exact (hmemE _).2 ⟨R, hR, stop_mem_gevents hTop⟩
+    exact (hmemE _).2 ⟨R, hsub R hR, stop_mem_gevents hTop⟩
+
+/-! ### the concrete family: `famOf S` = `famF S` and the pseudo ranges behind `markersOf S` -/
+
+/-- a range of `famOf S` that the sweep does not push is a pseudo range, met across a declared block -/
+theorem not_famF {S : List SubnetDecl} {R : Rng} (hR : R ∈ famOf S) (hn : R ∉ famF S) :
+    straddle S = true ∧ isUpper R = true := by
+  unfold famF at hn
+  cases hstr : straddle S with
+  | false => rw [hstr] at hn; exact absurd hR hn
+  | true =>
+    rw [hstr] at hn
+    simp only [if_true, List.mem_filter, not_and, Bool.not_eq_true', Bool.not_eq_false'] at hn
+    refine ⟨rfl, ?_⟩
+    have := hn hR
+    simpa using this
+
+/-- the pseudo ranges of `famOf S` -/
+theorem upper_cases {S : List SubnetDecl} (h : SubsWF S) {R : Rng} (hR : R ∈ famOf S)
+    (hU : isUpper R = true) :
+    (∃ s ∈ S, (s.net = 0 ∧ s.ones = 0) ∧ R = half s) ∨
+      (R = R6b ∧ ∀ s ∈ S, ¬ (s.net = 0 ∧ s.ones = 0)) := by
+  rcases (mem_famOf h).1 hR with ⟨s, hs, rfl⟩ | h1 | ⟨rfl, _⟩ | ⟨rfl | rfl, n6⟩
+  · rw [isUpper_blk h hs] at hU; cases hU
+  · exact Or.inl h1
+  · exact absurd hU (by decide)
+  · exact absurd hU (by decide)
+  · exact Or.inr ⟨rfl, n6⟩
+
+theorem upper_unique {S : List SubnetDecl} (h : SubsWF S) {R R' : Rng} (hR : R ∈ famOf S)
+    (hR' : R' ∈ famOf S) (hU : isUpper R = true) (hU' : isUpper R' = true) : R = R' := by
+  rcases upper_cases h hR hU with ⟨s, hs, h0, rfl⟩ | ⟨rfl, n6⟩ <;>
+  rcases upper_cases h hR' hU' with ⟨s', hs', h0', rfl⟩ | ⟨rfl, n6'⟩
+  · rw [w1_inj h hs hs' (by omega) (by omega)]
+  · exact absurd h0 (n6' s hs)
+  · exact absurd h0' (n6 s' hs')
+  · rfl
+
+theorem upper_gevents {S : List SubnetDecl} (h : SubsWF S) {R : Rng} (hR : R ∈ famOf S)
+    (hU : isUpper R = true) : gevents R = [⟨R, .start⟩] ∧ R.len ≤ 255 := by
+  rcases upper_cases h hR hU with ⟨s, hs, h0, rfl⟩ | ⟨rfl, _⟩
+  · refine ⟨by simp [gevents, half], ?_⟩
+    show s.ones ≤ 255; omega
+  · exact ⟨by simp [gevents, R6b], by decide⟩
+
+/-- no event of a pushed range has the rank of the pseudo start point -/
+theorem marker_rank_ne {S : List SubnetDecl} (h : SubsWF S) (hstr : straddle S = true) {R : Rng}
+    (hR : R ∈ famF S) {g : GEv} (hg : g ∈ gevents R) : grank g ≠ afterIPv4 * 1024 + 512 := by
+  obtain ⟨b1, b2, b3⟩ := famF_bounds h R hR
+  have hnu := not_upper_of_mem_famF hstr hR
+  obtain ⟨e, _⟩ := gevents_mem hg
+  obtain ⟨r, k⟩ := g
+  simp only at e; subst e
+  intro heq
+  cases k with
+  | start =>
+    rw [grank_start] at heq
+    unfold srank at heq
+    have h1 : r.lo ≤ afterIPv4 := addr_lt_of_rank (x := 0) (y := 513)
+      (by rw [Nat.add_zero]; exact Nat.lt_of_le_of_lt (Nat.le_add_right _ _) (heq ▸ Nat.lt_succ_self _))
+      (by decide)
+    have h2 : afterIPv4 ≤ r.lo := addr_lt_of_rank (x := 0) (y := 512 + r.len + 1)
+      (by rw [Nat.add_zero]
+          exact Nat.lt_of_le_of_lt (Nat.le_add_right _ 512) (heq ▸ Nat.lt_succ_self _))
+      (by omega)
+    have hlo : r.lo = afterIPv4 := Nat.le_antisymm h1 h2
+    rw [hlo] at heq
+    have hlen : r.len = 0 := by omega
+    simp [isUpper, hlo, hlen] at hnu
+  | stop =>
+    rw [grank_stop] at heq
+    unfold erank at heq
+    have h1 : r.hi ≤ afterIPv4 := addr_lt_of_rank (x := 0) (y := 513)
+      (by rw [Nat.add_zero]; exact Nat.lt_of_le_of_lt (Nat.le_add_right _ _) (heq ▸ Nat.lt_succ_self _))
+      (by decide)
+    have h2 : afterIPv4 ≤ r.hi := addr_lt_of_rank (x := 0) (y := 255 - r.len + 1)
+      (by rw [Nat.add_zero]
+          exact Nat.lt_of_le_of_lt (Nat.le_add_right _ 512) (heq ▸ Nat.lt_succ_self _))
+      (by omega)
+    have hhi : r.hi = afterIPv4 := Nat.le_antisymm h1 h2
+    rw [hhi] at heq
+    omega
+
+theorem upper_rank {R : Rng} (hU : isUpper R = true) :
+    grank ⟨R, .start⟩ = afterIPv4 * 1024 + 512 := by
+  have : R.lo = afterIPv4 ∧ R.len = 0 := by simpa [isUpper] using hU
+  rw [grank_start]; unfold srank; rw [this.1, this.2]
+
+/-- the events of `famOf S` have pairwise distinct ranks -/
+theorem events_rank_inj {S : List SubnetDecl} (h : SubsWF S) :
+    ((famOf S).flatMap gevents).Pairwise fun g g' => grank g ≠ grank g' := by
+  have hF := famF_wf h
+  rw [List.pairwise_flatMap]
+  constructor
+  · intro R hR
+    by_cases hRF : R ∈ famF S
+    · have hlt := srank_lt_erank hF hRF
+      unfold gevents
+      by_cases hTop : R.hi = TOP
+      · rw [if_pos hTop]; simp
+      · rw [if_neg hTop]
+        simp only [List.pairwise_cons, List.mem_singleton, forall_eq, List.not_mem_nil, false_imp_iff,
+          implies_true, List.Pairwise.nil, and_true]
+        rw [grank_start, grank_stop]; omega
+    · rw [(upper_gevents h hR (not_famF hR hRF).2).1]; simp
+  · have hpw : (famOf S).Pairwise (· ≠ ·) := famOf_nodup h
+    refine List.Pairwise.imp_of_mem ?_ hpw
+    intro R R' hR hR' hne g hg g' hg'
+    by_cases hRF : R ∈ famF S <;> by_cases hRF' : R' ∈ famF S
+    · exact rank_ne_of_ne hF hRF hRF' hne hg hg'
+    · obtain ⟨hstr, hU'⟩ := not_famF hR' hRF'
+      rw [(upper_gevents h hR' hU').1, List.mem_singleton] at hg'
+      rw [hg', upper_rank hU']
+      exact marker_rank_ne h hstr hRF hg
+    · obtain ⟨hstr, hU⟩ := not_famF hR hRF
+      rw [(upper_gevents h hR hU).1, List.mem_singleton] at hg
+      rw [hg, upper_rank hU]
+      exact fun e => marker_rank_ne h hstr hRF' hg' e.symm
+    · exact absurd (upper_unique h hR hR' (not_famF hR hRF).2 (not_famF hR' hRF').2) hne
+
+/-- the sorted ghost events of a well-formed subnet list form a cut at 0 -/
+theorem cut_famOf {S : List SubnetDecl} (h : SubsWF S) :
+    Cut (famF S) (markersOf S) 0 (sortBy GEv.pt ((famOf S).flatMap gevents)) := by
+  refine cut_sortBy (famF_wf h) (fun R hR => (famF_sublist S).subset hR) ?_ (events_rank_inj h)
+  intro R hR hRF
+  obtain ⟨hstr, hU⟩ := not_famF hR hRF
+  obtain ⟨h1, h2⟩ := upper_gevents h hR hU
+  exact ⟨h1, mem_markersOf.2 ⟨hstr, R, hR, hU, rfl⟩, h2⟩
 
 /-! ### `AddLocation` generates the events of `rngOf` -/
 
@@ -221,17 +343,17 @@ theorem addAll_points_ne_nil {S : List SubnetDecl} (hne : S ≠ []) :
     | nil => exact absurd hr this
     | cons R Rs => simp [List.flatMap_cons, hr, gevents]
 
-/-- `Rearrange()` = sort, annotated sweep, squash — for the family `famOf S` -/
-theorem rearrange_spec {S : List SubnetDecl} (hne : S ≠ []) (hF : RngWF (famOf S)) :
+/-- `Rearrange()` = sort, annotated sweep, squash — for the family `famF S` -/
+theorem rearrange_spec {S : List SubnetDecl} (h : SubsWF S) (hne : S ≠ []) :
     ∃ GO : List (GEv × Rng),
       rearrange (addAll S) = some (squash [] (GO.map outPt)) ∧
       (GO.Pairwise fun x y => grank x.1 < grank y.1) ∧
-      (∀ gh ∈ GO, gh.1.r ∈ famOf S ∧ IsHead (famOf S) (grank gh.1) gh.2 ∧
-        (gh.1.kind = .start → gh.2 = gh.1.r) ∧ (gh.1.kind = .stop → gh.1.r.hi ≠ TOP)) ∧
-      (∀ R ∈ famOf S, (⟨R, .start⟩ : GEv) ∈ GO.map Prod.fst ∧
+      (∀ gh ∈ GO, OutOK (famF S) (markersOf S) gh) ∧
+      (∀ R ∈ famF S, (⟨R, .start⟩ : GEv) ∈ GO.map Prod.fst ∧
         (R.hi ≠ TOP → (⟨R, .stop⟩ : GEv) ∈ GO.map Prod.fst)) := by
-  have hcut := cut_sortBy hF
-  obtain ⟨GO, hfst, hsw, hsorted, hmem⟩ := sweep_out hF hcut
+  have hF := famF_wf h
+  have hcut := cut_famOf h
+  obtain ⟨GO, hfst, hsw, hsorted, hmem⟩ := sweep_out hF (famF_noResume h) (markersOf_wf h) hcut
   refine ⟨GO, ?_, hsorted, hmem, ?_⟩
   · unfold rearrange
     rw [addAll_points_ne_nil hne]
